@@ -1,13 +1,42 @@
 """C09 — scores are the documented composition of the weighting model's term scores."""
 from gen import search as G
-from props.c01 import absorb, corpus_jobs, floor_check, replay  # noqa
+from props.c01 import absorb, corpus_jobs, floor_check, interleave, replay, run_jobs  # noqa
 
 ID = "C09"
 LEVEL = "proof"
 LEAN_IMPORTS = ["WM.Props.C09"]
-THEOREMS = ["WM.C09.scores", "WM.C09.score_of_entry", "WM.C09.collector_independent", "WM.C09.lengthbyte"]
-PARTIAL = {}
-RULE = ("random schema/corpus/history/query tree per sub-seed; a case = (index, query, scored path) or "
+THEOREMS = ["WM.C09.scores", "WM.C09.score_of_entry", "WM.C09.collector_independent", "WM.C09.models",
+            "WM.C09.layout", "WM.C09.layout_models", "WM.C09.lengthbyte"]
+_LIST = ("list level: about WM.Compile.compile (the (doc, score) list a per-segment matcher tree enumerates), not "
+         "about the cursors' score()/block_quality()/skip_to_quality of whoosh/matching (C11/C12; Lean bridge "
+         "WM.C01.cursor_den for leaves and boolean constructors only); hypotheses PosQ/PosLeaf (boosts and leaf "
+         "scores > 0) exclude ReverseWeighting, PL2/DFree where a term score is <= 0, and zero boosts - there the "
+         "array union drops documents (finding ArrayUnionMatcher:document-with-non-positive-accumulated-score-"
+         "is-dropped). ")
+PARTIAL = {
+    "WM.C09.scores": _LIST + "The leaf scorer `ls` is an arbitrary function of (document, field, term): the theorem "
+                     "is instantiated for Frequency, TF_IDF and BM25F by WM.C09.models; PL2, DFree, "
+                     "FunctionWeighting, MultiWeighting, ReverseWeighting and the final() hook have no Lean "
+                     "formula and are compared end-to-end against reference formulas evaluated in the harness.",
+    "WM.C09.score_of_entry": _LIST,
+    "WM.C09.collector_independent": _LIST + "'collector' = needs_current (terms=True vs plain search) x tree-shape "
+                                    "oracle, the only way a collector reaches Query.matcher; top-N/limit, quality "
+                                    "skipping, replace() (C05) and sorting/filtering/collapsing collectors (C14) "
+                                    "are not in the statement; the ranked-result conjunct is a fact about the "
+                                    "specification's rankAll.",
+    "WM.C09.models": _LIST + "idf is an abstract positive function (whoosh: log(N/(df+1))+1 resp. "
+                     "log(1+(N-df+0.5)/(df+0.5)), real-valued; the driver is handed the float idf values as "
+                     "rationals); BM25F/TF_IDF/Frequency only; scores over Rat, compared with 1e-9 relative "
+                     "tolerance. States that the per-segment scorers use the statistics of the whole index "
+                     "(termStats idx), which the layout stream compares with the real reader's statistics.",
+    "WM.C09.layout": "hypothesis NoDeletions on both layouts (with a deleted document still in a segment doc counts "
+                     "and frequencies differ: Lean example in C09.lean; that a merge purges them is C06's claim); "
+                     "'weighting' = any function of (termStats, stored weight, approximated field length).",
+    "WM.C09.layout_models": "as layout, for the TF_IDF and BM25F leaf scorers of WM.Spec.SearchStats",
+}
+RULE = ("random schema/corpus/history/query tree per sub-seed (streams: exact Frequency; table = BM25F/TF_IDF/Multi; "
+        "final() hook reading the stored key; other = Function/PL2/DFree/Reverse; layout = same documents, two "
+        "commit/merge partitions); a case = (index, query, scored path) or "
         "(segment, query, context) for the matcher stepping; exact stream: scoring.Frequency with dyadic "
         "boosts compared as rationals; tolerance stream: BM25F / TF_IDF / MultiWeighting against the reference "
         "formula from corpus statistics (1e-9 relative); non-trivial = non-empty answer that is not all live "
@@ -19,9 +48,13 @@ ASSUMPTIONS = [
     "model: exact stream = scoring.Frequency with dyadic boosts (floats are exact there), other models compared "
     "with relative tolerance 1e-9",
     "positive boosts and leaf scores (hypotheses PosQ/PosLeaf; the array union decides membership by score > 0): "
-    "ReverseWeighting and zero boosts are outside the theorems; PL2/DFree/FunctionWeighting/final() are not run",
-    "leaf scores of BM25F/TF_IDF/MultiWeighting are the documented formulas evaluated in the harness from "
-    "statistics re-derived from the corpus model (doc count incl. deleted, document frequencies, length bytes); "
+    "ReverseWeighting, PL2 and DFree (term scores may be <= 0) and zero boosts are outside the theorems; they are "
+    "run end-to-end against the same specification (the one resulting defect is a known finding)",
+    "BM25F and TF_IDF leaf scores are the Lean formulas (WM.Search.bm25fLeaf / tfidfLeaf over termStats of the "
+    "whole index; only the idf values, a logarithm, are handed to the driver as a table); leaf scores of "
+    "PL2/DFree/MultiWeighting/ReverseWeighting/FunctionWeighting are the documented formulas evaluated in the "
+    "harness from statistics re-derived from the corpus model (doc count incl. deleted, document frequencies, "
+    "length bytes); "
     "the total field length is taken from the index when it equals the sum of true lengths, of approximated "
     "lengths, or the mix a merge produces (layout independence of statistics is C06's claim)",
 ]
@@ -32,14 +65,18 @@ MANIFEST = {
     "level_text": "Lean theorems over the list-level denotational model of Query.matcher(): in every scored "
                   "context, for every tree shape and Or strategy, the compiled per-segment list is exactly the "
                   "specified (doc, scoreOf) list (scores), a document's score is the same whatever the collector "
-                  "and depends on that document alone (collector_independent), and the length-byte approximation "
+                  "and depends on that document alone (collector_independent), Frequency/TF_IDF/BM25F on global statistics "
+                  "satisfy the hypotheses (models), collection statistics and hence all leaf "
+                  "scores are the same for every segment layout of the same documents without deletions (layout), "
+                  "and the length-byte approximation "
                   "is defined, never below the length, idempotent and monotone (lengthbyte, decide +kernel over "
                   "the 256-entry table lifted by find/takeWhile lemmas); tied to whoosh by stepping real matchers, "
-                  "by search(limit=None)/terms=True against the Lean scoreOf, and by an exhaustive-below-2200 + "
-                  "boundary diff of length_to_byte/byte_to_length.",
-    "level_note": "Scores over Rat; hypotheses: positive boosts/leaf scores, no empty term, valid tree shapes. "
-                  "Cursor-level defects of whoosh/matching (DisjunctionMaxMatcher.score, AndMaybeMatcher.skip_to, "
-                  "replace(0)) are reported as narrow findings until the matcher family's fixes are merged.",
+                  "by search(limit=None)/terms=True against the Lean scoreOf for nine weighting models incl. a "
+                  "final() hook, by indexing the same documents under two layouts (scores equal, statistics equal to "
+                  "the Lean termStats), and by an exhaustive-below-2200 + boundary diff of length_to_byte/byte_to_length.",
+    "level_note": "Scores over Rat; hypotheses: positive boosts/leaf scores, valid tree shapes (see PARTIAL); list "
+                  "level, Lean leaf formulas for Frequency/TF_IDF/BM25F (models), the other shipped weightings "
+                  "are run end-to-end only.",
     "technique": "machine-checked proof in Lean 4 over an executable model + differential correspondence check "
                  "against the implementation + end-to-end run of the public API against the Lean specification",
 }
@@ -47,6 +84,14 @@ EXPLANATION = ("expected scores come from WM.Search.hits (scoreOf) evaluated by 
                "leaf scores = stored weight (Frequency) or a per-document table of reference leaf scores")
 
 SCORED_PATHS = ["limit=None", "terms=True"]
+
+
+def wspec_other(rng):
+    """the remaining shipped models: FunctionWeighting, PL2, DFree, ReverseWeighting (term scores of
+    the last three may be <= 0: outside the theorems' positivity hypothesis, run against the same
+    specification)"""
+    return rng.choice([("function",), ("pl2", 1.0), ("pl2", 2.5), ("dfree",), ("reverse", ("freq",)),
+                       ("reverse", ("bm25f", 0.75, 1.2, {})), ("reverse", ("tfidf",))])
 
 
 def wspec_for(rng):
@@ -102,22 +147,48 @@ def lengthbyte(ctx):
 
 def run(ctx):
     lengthbyte(ctx)
-    n = ctx.budget(70, 1400)
     with ctx.scratch() as scratch:
-        jobs = corpus_jobs(ID, scratch)
-        for i in range(n):
-            jobs.append(("%s:%d:x%d" % (ctx.pid, ctx.seed, i),
-                         {"nq": 8, "scratch": scratch, "scores": True, "corr": True, "paths": SCORED_PATHS,
-                          "mode": "freq", "weighting": ("freq",), "hyp": True}))
+        base = {"scratch": scratch, "scores": True, "corr": True, "paths": SCORED_PATHS}
         rng = ctx.rng("weightings")
-        for i in range(ctx.budget(50, 1000)):
-            jobs.append(("%s:%d:t%d" % (ctx.pid, ctx.seed, i),
-                         {"nq": 6, "scratch": scratch, "scores": True, "corr": True, "paths": SCORED_PATHS,
-                          "mode": "table", "weighting": wspec_for(rng), "longdocs": True}))
-        results = ctx.pmap(G.work, jobs, chunksize=2)
+        exact = [("%s:%d:x%d" % (ctx.pid, ctx.seed, i),
+                  dict(base, nq=8, mode="freq", weighting=("freq",), hyp=True))
+                 for i in range(ctx.budget(260, 2400))]
+        table = []
+        for i in range(ctx.budget(150, 1500)):
+            w = wspec_for(rng)
+            # TF_IDF and BM25F: the Lean leaf models over the Lean statistics (mode "lean");
+            # MultiWeighting: reference leaf scores computed in the harness (mode "table")
+            table.append(("%s:%d:t%d" % (ctx.pid, ctx.seed, i),
+                          dict(base, nq=6, mode="table" if w[0] == "multi" else "lean", weighting=w, longdocs=True)))
+        # final() hook that inspects the document: needs the global doc number in every segment
+        final = [("%s:%d:f%d" % (ctx.pid, ctx.seed, i),
+                  dict(base, nq=5, mode="freq", weighting=("final",)))
+                 for i in range(ctx.budget(70, 500))]
+        # (term scores <= 0 are outside the model's exactness: where the implementation reads an array
+        # union through all_ids() the stepping model differs, so only the needs_current=True matcher
+        # trees — no scored array union — are stepped for those weightings)
+        other = []
+        for i in range(ctx.budget(110, 900)):
+            w = wspec_other(rng)
+            other.append(("%s:%d:o%d" % (ctx.pid, ctx.seed, i),
+                          dict(base, nq=6, mode="table", weighting=w, longdocs=True,
+                               corr_nc=(0, 1) if w[0] == "function" else (1,))))
+        huge = [("%s:%d:huge%d" % (ctx.pid, ctx.seed, i),
+                 dict(base, nq=3, mode="freq", weighting=("freq",), ndocs=2300, nseg=1, maxdepth=3, max_shrinks=2,
+                      vocab_n=40, sparse_or=3))
+                for i in range(ctx.budget(2, 8))]
+        jobs = corpus_jobs(ID, scratch) + huge + interleave(exact, table, final, other)
+        deadline = 40 if ctx.tier == "quick" else 450
+        jobs, results = run_jobs(ctx, jobs, deadline)
+        # C09.layout: the same documents under two segment layouts (no deletions)
+        lay = [("%s:%d:L%d" % (ctx.pid, ctx.seed, i), {"scratch": scratch,
+                "weighting": rng.choice([("bm25f", 0.75, 1.2, {}), ("tfidf",), ("bm25f", 1.0, 2.0, {"t": 0.5})])})
+               for i in range(ctx.budget(60, 600))]
+        _, lres = run_jobs(ctx, lay, deadline + (10 if ctx.tier == "quick" else 90), fn=G.layout_work)
     for (sd, o), r in zip(jobs, results):
-        ctx.stat("stream:%s:%s" % (o["mode"], o["weighting"][0]))
-    absorb(ctx, results, "Compile.compile(scores)")
+        if "weighting" in o:
+            ctx.stat("stream:%s:%s" % (o["mode"], o["weighting"][0]))
+    absorb(ctx, results + lres, "Compile.compile(scores)")
     floor_check(ctx)
     ctx.sample({"seed": results[0]["seed"], "stats": results[0]["stats"]})
 
